@@ -2,6 +2,7 @@
 The expected value is computed from the AST by the grammar written in the docstrings of MappingDirector
 (_blocks: shorthand resname[#resid] identifiers, _nodes, _edges, _mapping: `<atom from> <atom to> [weight]` with
 weight := float | int, _reference_atoms), independently of the parser."""
+import json
 from fractions import Fraction
 
 FROM_BLOCKS = {'ALA': (['N', 'CA', 'C', 'O', 'CB', 'HN'], [('N', 'CA'), ('CA', 'C'), ('C', 'O'), ('CA', 'CB'), ('N', 'HN')]),
@@ -46,11 +47,28 @@ def gen_mapping(rng, float_weights=True):
                 w = rng.choice(WEIGHTS if float_weights else [x for x in WEIGHTS if x is None or '.' not in x])
                 lines.append({'fres': ri, 'fatom': atom, 'tres': ri, 'tatom': b, 'weight': w,
                               'qualified': nres > 1 or rng.random() < 0.4})
+    # atoms that the origin blocks do not have, declared in [ from nodes ] (with or without an identifier and a dict of
+    # attributes), bonded in [ from edges ] and mapped like any other atom
+    extra = []
+    if rng.random() < 0.5:
+        cur = None
+        for j in range(rng.randint(1, 3)):
+            ri = rng.randint(1, nres)
+            qualified = nres > 1 and (cur is None or ri != cur or rng.random() < 0.4)
+            if nres > 1 and not qualified:
+                ri = cur                                       # a bare name goes to the identifier used last
+            if nres == 1:
+                qualified = rng.random() < 0.4
+            cur = ri if qualified or nres > 1 else cur
+            attrs = rng.choice([None, None, {'element': 'H'}, {'charge': 1.0}, {'element': 'H', 'mass': 1.008}])
+            anchor = rng.choice(FROM_BLOCKS[resnames[ri - 1]][0])
+            extra.append({'res': ri, 'name': 'HX%d' % (j + 1), 'attrs': attrs, 'qualified': qualified, 'anchor': anchor,
+                          'bead': rng.choice(TO_BLOCKS[resnames[ri - 1]][0]), 'weight': rng.choice(WEIGHTS)})
     refs = []
     if rng.random() < 0.2 and lines:
         l = rng.choice(lines)
         refs.append({'tres': l['tres'], 'tatom': l['tatom'], 'fres': l['fres'], 'fatom': l['fatom']})
-    return {'resnames': resnames, 'explicit_ids': explicit_ids, 'lines': lines, 'refs': refs}
+    return {'resnames': resnames, 'explicit_ids': explicit_ids, 'lines': lines, 'refs': refs, 'extra': extra}
 
 
 def gen_file(rng):
@@ -67,7 +85,18 @@ def print_file(f):
     for m in f['mappings']:
         out += ['[ block ]', '[ from ]', 'ffa', '[ to ]', 'ffb']
         ids = ' '.join(_ident(m, ri) for ri in range(1, len(m['resnames']) + 1))
-        out += ['[ from blocks ]', ids, '[ to blocks ]', ids, '[ mapping ]']
+        out += ['[ from blocks ]', ids, '[ to blocks ]', ids]
+        many = len(m['resnames']) > 1
+        if m.get('extra'):
+            out.append('[ from nodes ]')
+            for e in m['extra']:
+                out.append(('%s:' % _ident(m, e['res']) if e['qualified'] else '') + e['name'] + (' ' + json.dumps(e['attrs']) if e['attrs'] else ''))
+            out.append('[ from edges ]')
+            for e in m['extra']:
+                out.append('%s:%s %s:%s' % (_ident(m, e['res']), e['name'], _ident(m, e['res']), e['anchor']))
+        out.append('[ mapping ]')
+        for e in m.get('extra', []):
+            out.append('%s:%s %s:%s%s' % (_ident(m, e['res']), e['name'], _ident(m, e['res']), e['bead'], '' if e['weight'] is None else ' ' + e['weight']))
         for l in m['lines']:
             fa = ('%s:' % _ident(m, l['fres']) if l['qualified'] else '') + l['fatom']
             ta = ('%s:' % _ident(m, l['tres']) if l['qualified'] else '') + l['tatom']
@@ -85,6 +114,10 @@ def expected(m):
     for l in m['lines']:
         w = Fraction(1) if l['weight'] is None else Fraction(l['weight'])
         want.setdefault((l['fres'], l['fatom']), {})[(l['tres'], l['tatom'])] = w
+    for e in m.get('extra', []):
+        w = Fraction(1) if e['weight'] is None else Fraction(e['weight'])
+        want.setdefault((e['res'], e['name']), {})[(e['res'], e['bead'])] = w
+    # the extra atoms are written first in [ mapping ]: a later line of the same pair would replace them (names differ, so none does)
     return want
 
 
@@ -112,6 +145,17 @@ def check_file(f, loaded):
         have = sorted((d['resid'], d['atomname']) for d in lm.block_from.nodes.values())
         if have != sorted(want):
             return 'mapping %r: origin atoms %r, mapped atoms %r' % (m['resnames'], have, sorted(want))
+        # an atom declared in [ from nodes ] has the attributes of its identifier, its name and its own dict: nothing else
+        by_name = {(d['resid'], d['atomname']): (k, d) for k, d in lm.block_from.nodes.items()}
+        for e in m.get('extra', []):
+            k, d = by_name[(e['res'], e['name'])]
+            want_attrs = {'resname': m['resnames'][e['res'] - 1], 'resid': e['res'], 'atomname': e['name']}
+            want_attrs.update(e['attrs'] or {})
+            if dict(d) != want_attrs:
+                return 'mapping %r: atom %s declared with %r, loaded with %r' % (m['resnames'], e['name'], want_attrs, dict(d))
+            anchor = by_name.get((e['res'], e['anchor']))
+            if anchor is not None and not lm.block_from.has_edge(k, anchor[0]):
+                return 'mapping %r: the declared bond %s-%s is missing' % (m['resnames'], e['name'], e['anchor'])
         want_refs = {(r['tres'], r['tatom']): (r['fres'], r['fatom']) for r in m['refs']}
         got_refs = {}
         for ti, fi in lm.references.items():
